@@ -52,6 +52,32 @@ theorem readUvarint_put (x : Nat) (hx : x < two64) (rest : Bytes) :
   rw [readUvarintAux_put 10 x 0 0 1 rest (by omega) (by omega) (by simpa [two64] using hx)]
   simp
 
+/-- `sizeVarint(x) = len(binary.AppendUvarint(nil, x))` for every uint64. -/
+theorem sizeVarint_eq (x : Nat) (hx : x < two64) : sizeVarint x = (putUvarint x).length := by
+  -- the 10th byte is final for a uint64, so the encoder never runs out of fuel
+  have key : ∀ (f : Nat) (y : Nat), 1 ≤ f → y < 2 ^ (7 * f - 6) → sizeVarintF f y = (putUvarintF f y).length := by
+    intro f
+    induction f with
+    | zero => intro y hf; omega
+    | succ f ih =>
+      intro y _ hy
+      unfold sizeVarintF putUvarintF
+      by_cases h : y < 128
+      · have : y / 128 = 0 := by omega
+        simp [h, this]
+      · have h0 : ¬ (y / 128 = 0) := by omega
+        have hf1 : 1 ≤ f := by
+          cases f with
+          | zero => simp at hy; omega
+          | succ f => omega
+        simp only [h, h0, ↓reduceIte, List.length_cons]
+        have hy' : y / 128 < 2 ^ (7 * f - 6) := by
+          rw [pow_split f hf1] at hy
+          exact Nat.div_lt_of_lt_mul hy
+        rw [ih (y / 128) hf1 hy']
+        omega
+  exact key 10 x (by omega) (by simpa [two64] using hx)
+
 structure Header.WF (h : Header) : Prop where
   klen : h.klen < two32
   vlen : h.vlen < two32
